@@ -287,6 +287,99 @@ def gen_int_float(rng, tier, fixed):
                 yield Case("u.from_%s.asis" % ty, [a]); yield Case("i.from_%s.asis" % ty, [a])
 
 
+def single_bit_patterns(n, p, positions):
+    """n-bit naturals built around the rounding position of a p-bit format: kept part (even / odd last bit, all
+    ones) x round bit {1 = tie, 0} x ONE extra set bit at position j (just above / just below the tie), and the
+    mirror image: everything below the round bit set except ONE cleared bit at j.  `positions` = candidate js."""
+    out = []
+    if n <= p + 1:
+        return out
+    k = n - p                      # discarded bits; round bit at k-1
+    tops = [1 << (p - 1), (1 << (p - 1)) | 1, (1 << p) - 1, (1 << p) - 2]
+    below = (1 << (k - 1)) - 1
+    for t in tops:
+        for rb in (1, 0):
+            base = (t << k) | (rb << (k - 1))
+            out.append(base)
+            out.append(base | below)
+            for j in positions:
+                if 0 <= j < k - 1:
+                    out.append(base | (1 << j))
+                    out.append(base | (below & ~(1 << j)))
+    return out
+
+
+def boundary_positions(n, p, full):
+    """bit positions adjacent to every internal boundary of to_fNN_nontrivial / encode for an n-bit integer:
+    the round bit (n-p-1) and below, the 31/63-bit window (n-31, n-63) +-2, encode's own sticky boundaries inside
+    the window, word boundaries 64k, 64k+-1, and the bottom"""
+    if full:
+        return list(range(0, max(n - p - 1, 0)))
+    js = {0, 1, 2}
+    for c in (n - p - 1, n - p - 2, n - p - 3, n - 31, n - 63, n - 24, n - 53):
+        for d in (-3, -2, -1, 0, 1, 2):
+            js.add(c + d)
+    for w in range(64, n + 1, 64):
+        js |= {w - 2, w - 1, w, w + 1}
+    return sorted(j for j in js if 0 <= j < n - p - 1)
+
+
+BOUNDARY_LENGTHS = [25, 26, 27, 32, 33, 54, 55, 56, 63, 64, 65, 66, 67, 68, 69, 70, 127, 128, 129, 130, 131, 191, 192, 193,
+                    255, 256, 257, 500, 1023, 1024, 1025]
+
+
+def gen_boundary(rng, tier):
+    """single-bit probes of every sticky / guard / window boundary (quick tier too)"""
+    quick = tier == "quick"
+    # big integers -> floats
+    for n in BOUNDARY_LENGTHS + ([] if quick else list(range(71, 127, 7)) + [320, 321, 640, 700, 1000]):
+        for ty, p in (("f32", 24), ("f64", 53)):
+            if ty == "f32" and n > 131:
+                continue
+            pos = boundary_positions(n, p, full=(n <= 131) or not quick and n <= 257)
+            for x in single_bit_patterns(n, p, pos):
+                r = rng.random()
+                if r < 0.7:
+                    yield Case("u.to_" + ty, [hx(x)])
+                else:
+                    yield Case("i.to_" + ty, [hx(-x if r < 0.9 else x)])
+    # rationals: the quotient carries the pattern; the bits below the guard bits come from the quotient (dyadic
+    # denominators) or only from the remainder (odd denominators)
+    for ty, p in (("f32", 24), ("f64", 53)):
+        for n in [p + 1, p + 2, p + 3, p + 4, p + 5, p + 6, p + 8, p + 12, 64, 65, 66, 128, 129, 130] + ([] if quick else [191, 192, 193, 300]):
+            if n <= p + 1:
+                continue
+            pos = boundary_positions(n, p, full=(n <= p + 12) or not quick)
+            pats = single_bit_patterns(n, p, pos)
+            for x in pats:
+                e = rng.choice([0, 0, 0, 3, 70, 140, 149 + n, 1074 + n, 1070 + n - p])
+                yield Case("r.to_" + ty, [hx(signed(rng, x)), hx(1 << e)])
+            # remainder-only sticky: floor(num/den) is exactly the tie / the all-ones-below pattern
+            for x in pats[:: max(1, len(pats) // 40)] + single_bit_patterns(n, p, []):
+                for d in (3, 7, (1 << 64) + 13):
+                    for delta in (1, d - 1, d // 2):
+                        yield Case("r.to_" + ty, [hx(signed(rng, x * d + delta)), hx(d << rng.choice([0, 0, 5, 130]))])
+    # encode: single bit at every position below the round bit for the normal cut, boundary positions for subnormal cuts
+    for name, f in FMT.items():
+        N, MB = f["N"], f["MB"]; p = MB + 1; qmin = _qmin(f); mty = f["mty"]
+        for L in range(p + 2, N):
+            for a in single_bit_patterns(L, p, range(0, L - p - 1)):
+                for t in ([0, qmin + p + 1] if quick else [0, 1, qmin + p, qmin + p + 1, 2 ** (f["EB"] - 1)]):
+                    yield Case(name + ".encode", [prim(mty, signed(rng, a)), prim("i16", t - L)])
+        for L in range(2, N):
+            for k in range(2, L + 1):
+                if quick and rng.random() < 0.7:
+                    continue
+                kept = L - k
+                for j in {0, 1, k - 2, k - 3, (k - 1) // 2}:
+                    if 0 <= j < k - 1:
+                        for rb in (0, 1):
+                            a = (1 << (L - 1)) | (rb << (k - 1)) | (1 << j)
+                            if kept >= 2 and rng.random() < 0.5:
+                                a |= 1 << k
+                            yield Case(name + ".encode", [prim(mty, signed(rng, a)), prim("i16", qmin - k)])
+
+
 def fixed_from_float():
     try:
         src = open("/repo/integer/src/convert.rs").read()
@@ -493,6 +586,7 @@ def generate(rng, tier):
     yield from gen_encode(rng, tier, fixed)
     yield from gen_decode(rng, tier)
     yield from gen_prim(rng, tier)
+    yield from gen_boundary(rng, tier)
     yield from gen_int_float(rng, tier, fixed)
     yield from gen_ratio(rng, tier, not ratio_is_fixed())
     yield from gen_float(rng, tier)
@@ -537,7 +631,7 @@ REFINED = [
     "integer/src/primitive.rs to_sign_magnitude / try_from_sign_magnitude (all widths), from_unsigned round trip",
 ]
 FRONTIER = [
-    "rational/src/convert.rs to_f32_fast/to_f64_fast: mirrored; only the 2-ulp bound is checked per case",
+    "rational/src/convert.rs to_f32_fast/to_f64_fast: mirrored; only a 3-ulp bound is checked per case",
     "TryFrom<RBig> for f32/f64/ints/UBig/IBig, RBig::try_from(f32/f64), RBig::to_int: spec only (exact rational arithmetic in the driver)",
     "RBig::to_float, FBig::to_f32/to_f64/to_int, Repr::to_f32/to_int, TryFrom<FBig> for ints/IBig/UBig/RBig/f32/f64, FBig::try_from(f32/f64), "
     "From<RBig> for FBig: spec only (single rounding of the exact rational value under the documented mode, flags derived from the true error)",
@@ -548,7 +642,11 @@ RULE = ("Structured, built from the branch conditions of the code. encode/decode
         "half+quarter, all ones, random}; every threshold top_bit ±2. Primitives: every width/sign x {0, ±1, MIN, MAX, MAX+1, MIN-1, word, dword "
         "and heap boundaries, random}. Integers->floats: 2^k, 2^k±1, 2^k + 2^(k-p){,±1}, 2^k + 3·2^(k-p)..., every bit length 1..1100 with the "
         "same cut patterns at p = 24 and 53, overflow thresholds 2^128-2^103.., 2^1024-2^970.., u128::MAX. Floats->integers: all exponents around "
-        "the integer/fraction boundary, NaN/±inf/±0/subnormals. Rationals: quotients with p-1..p+3 bits x the cut patterns x denominators {1, "
+        "the integer/fraction boundary, NaN/±inf/±0/subnormals. Single-bit boundary probes (both tiers): for integer lengths n in {25..27, 32, 33, 54..56, 63..70, 127..131, 191..193, 255..257, 500, "
+        "1023..1025}, rational quotients of p+2..p+12, 64..66, 128..130 bits and every encode mantissa length: {even, odd, all-ones kept part} x "
+        "{tie, round bit clear} x ONE extra set bit (or one cleared bit in an all-ones tail) at every position below the round bit (all positions "
+        "for n <= 131, else those within 3 of the round bit, of the 31/63-bit window n-31/n-63, of encode's sticky boundary, of every word "
+        "boundary 64k, and 0..2); for rationals also remainder-only sticky (odd denominators). Rationals: quotients with p-1..p+3 bits x the cut patterns x denominators {1, "
         "small odd, 2^k, 2^64±1, 10^25, random} at exponents in the normal range, the subnormal band, below it and at the overflow edge; "
         "to_float over bases {2,3,10,16} x 6 modes x precisions with tie/near-tie tails. Floats of any base: binary significands of 1..200 bits "
         "at every regime, decimals d·10^e with |e| <= 400 (1..40 digits), the to_int family with exact halves/near halves. All call forms "
@@ -577,7 +675,7 @@ LEVEL_NOTE = ("No bv_decide: all theorems depend only on propext/Classical.choic
               "listed in assumptions. The `*AsIs` models describe the pinned pre-fix code and occur only in counterexample theorems; the `.asis` "
               "ops that tie them to the code are generated only while the corresponding defect text is still present in /repo. Known findings "
               "(design-level, unrepaired): RBig::to_float double rounding; FBig->f32/f64 flags, subnormal double rounding and non-binary-base "
-              "assertions; From<RBig> for FBig lossy. Observation (not a violation of C06 as worded): to_f32_fast/to_f64_fast can be 2 units off "
+              "assertions; From<RBig> for FBig lossy. Observation (not a violation of C06 as worded): to_f32_fast/to_f64_fast can be up to 3 units off "
               "(doc says 1); TryFrom<UBig> for f32 refuses representable integers above 2^25 (conservative); to_f32_small has the u64::MAX "
               "saturation issue on 32-bit-word builds (not reachable with 64-bit words).")
 TECHNIQUE = "Lean 4 refinement proofs (arithmetic over Nat/Int, generic in the format constants) + kernel-decided counterexamples + differential correspondence model/spec vs real code"
